@@ -18,9 +18,11 @@ func init() {
 			"(R3) hook phase table (UsesPreGet->PreGet guarded by MatchesKey, UsesPostGet->PostGet and UsesPrePut->PrePut guarded by Matches), pre-get before the storage read, post-get before the validity test, pre-put before the storage write, a hook error returns before the storage operation, hook list accessed under hooksLock; " +
 			"(R4) Cancel of a subscription/hook removes the receiver itself (pointer identity), registration appends under the write lock. " +
 			"(R5) lock pairing over the functions of package(s) database, database/record: " + lockRuleText + ". " +
+			"(R6) error discipline over the subscription, hook and controller code of package database: " + repoErrText + ". " +
 			"NOT decided: exactly-once/in-order delivery over write histories, behaviour when the feed buffer is full.",
 		Rules: []ruleFn{c14R1, c14R2, c14R3, c14R4,
-			lockRuleFor("C14-R5", 20, []string{"database", "database/record"}, []string{}, map[string]string{})},
+			lockRuleFor("C14-R5", 20, []string{"database", "database/record"}, []string{}, map[string]string{}),
+			repoErrRuleFor("C14-R6", 14, func(c *Ctx, fn *ssa.Function) bool { p := short(fn.Pkg.Pkg.Path()); return p == "database" && (inFile(c, fn, "subscription.go") || inFile(c, fn, "hook.go") || inFile(c, fn, "hookbase.go") || inFile(c, fn, "controller.go")) }, map[string]string{})},
 	})
 }
 
